@@ -27,7 +27,10 @@ def observe(nf, expected_nested):
     """class, kinds, listing consistency and a usability probe on every column expected to be nested"""
     res = {"cls": type(nf).__name__, "kinds": kinds(nf)}
     res["nested_columns"] = list(nf.nested_columns) if hasattr(nf, "nested_columns") else None
-    res["all_columns"] = {k: [str(x) for x in v] for k, v in nf.all_columns.items()} if hasattr(nf, "all_columns") else None
+    try:
+        res["all_columns"] = {k: [str(x) for x in v] for k, v in nf.all_columns.items()} if hasattr(nf, "all_columns") else None
+    except Exception as e:  # noqa: BLE001 — a result whose listing raises is reported as such, with the chain that led to it
+        res["all_columns"] = {"listing raised": [f"{type(e).__name__}: {str(e)[:60]}"]}
     usable = {}
     for n in expected_nested:
         if n not in nf.columns:
@@ -203,7 +206,15 @@ def run_chain(ctx, names=None, depth=None):
                 c, f = path.split(".")
                 return c in cur.columns and isinstance(cur[c].dtype, NestedDtype) and f in cur[c].nest.fields
             return path in cur.columns
-        if not all(has(x) for x in need) or any(has(x) for x in avoid) or "n" not in cur.columns:
+        try:
+            skip = not all(has(x) for x in need) or any(has(x) for x in avoid) or "n" not in cur.columns
+        except Exception as e:  # noqa: BLE001
+            # looking at the fields of a nested column of an intermediate result raised: that result is not usable
+            ctx.case("chain.result_unusable", {"start": s.desc(), "chain": list(hist)},
+                     {"err": type(e).__name__, "msg": str(e)[:120]}, None, {"ok": "the fields of every nested column can be listed"},
+                     features=tuple(hist[-1:]), spec_ok=False, nontrivial=True)
+            return
+        if skip:
             continue
         if nm == "without_field" and not ("n" in cur.columns and isinstance(cur["n"].dtype, NestedDtype) and "b" in cur["n"].nest.fields
                                           and len(cur["n"].nest.fields) > 1):
@@ -270,6 +281,33 @@ def case_constructors(ctx):
                  features=("constructor", form, wrap), nontrivial=True)
 
 
+def case_parquet_partial(ctx):
+    """a parquet column selection naming fields of two nests (interleaved) and base columns: the result is a NestedFrame
+    whose requested nests are nested with exactly the requested fields, whose requested base columns are base columns
+    holding the base values, and whose listing says so"""
+    from nested_pandas import read_parquet
+    rng = ctx.rng
+    nf, s = start_frame(ctx)
+    cols = ["n.a", "other.p", "n.b", "x"]
+    if rng.random() < 0.5:
+        cols = ["k", "n.b", "other.p", "n.a", "x"]
+
+    def run():
+        buf = io.BytesIO()
+        nf.reset_index(drop=True).to_parquet(buf)
+        buf.seek(0)
+        r = read_parquet(buf, columns=cols)
+        got = observe(r, ["n", "other"])
+        return {"cls": got["cls"], "kinds": sorted([c, (sorted(k) if isinstance(k, list) else k)] for c, k in got["kinds"]),
+                "nested_columns": sorted(got["nested_columns"] or []), "usable": got["usable"],
+                "x_values": [float(v) for v in r["x"].tolist()] if "x" in r.columns else None}
+    base = [c for c in cols if "." not in c]
+    exp = {"cls": "NestedFrame", "kinds": sorted([[c, "base"] for c in base] + [["n", ["a", "b"]], ["other", ["p"]]]),
+           "nested_columns": ["n", "other"], "usable": {"n": "ok", "other": "ok"}, "x_values": [float(v) for v in nf["x"].tolist()]}
+    ctx.case("closure.parquet_partial", {"start": s.desc(), "columns": cols}, call_real(run), None, {"ok": exp},
+             features=("parquet_partial", f"k={len(cols)}"), nontrivial=True)
+
+
 def run_all(ctx):
     import itertools
     rng = ctx.rng
@@ -277,9 +315,15 @@ def run_all(ctx):
         case_reject_nesting(ctx)
     for _ in range(ctx.budget(8, 80)):
         case_constructors(ctx)
+        case_parquet_partial(ctx)
     names = [o[0] for o in chain_ops(rng)]
     for nm in names:
         run_chain(ctx, [nm])
+    # directed: results WITHOUT rows carried through the serialisers and copies, then used
+    for empty in ("iloc_empty", "query_base_none", "query_nested_none"):
+        for carrier in ("pickle", "parquet", "copy", "concat", "concat_with_pickle"):
+            for use in ("query_nested", "sort_nested", "eval_assign", "field_assign"):
+                run_chain(ctx, [empty, carrier, use])
     pairs = list(itertools.product(names, repeat=2))
     rng.shuffle(pairs)
     for p in pairs[:ctx.budget(150, len(pairs))]:
